@@ -259,6 +259,11 @@ type c06Env struct {
 	glueWant int            // > 0: acknowledgements that must have been seen once the glued segment was handled
 	gluedOps int
 
+	lateWant bool   // closeBody under a held cc.wmu is followed by peer DATA on the closed stream (lateData)
+	lateTok  string // the pd token of that frame ("" = not sent)
+	lateW    int64  // the connection-level WINDOW_UPDATE it sets off
+	lateHits int
+
 	gate      *c06Gate // between the ClientConn and the socket: parks a writer inside a frame write
 	holding   bool     // a body writer is parked inside a DATA frame (cc.wmu held): see feedHeld
 	holdSnap  inflow
